@@ -27,6 +27,9 @@ func init() {
 func runC10(w *World, r *Report) {
 	hrTotalCountsAllGroups(w, r, "R3")
 	hrArrivalTimestampExact(w, r, "R4")
+	hrParseHeaders(w, r, "R4")
+	hrCfgAgentTimeout(w, r, "R6")
+	hrQueueTTLAtLeastOneSecond(w, r, "R6")
 	hrNoDedupBeforeUniqueness(w, r, "R8")
 	hrTimeoutAboveTTL(w, r, "R6")
 	hrCountsCopy(w, r, "R3")
